@@ -171,7 +171,7 @@ func c13HeadBody(r *Rand) []byte {
 	case 1:
 		return []byte("X-Not-A-Header: 1\r\n\r\nbody with a blank line\n\n \tend")
 	case 2:
-		return c13Pat(r.Intn(251), r.Range(1, 9000))
+		return c13Pat(r.Intn(251), r.Range(1, 4000))
 	case 3:
 		return []byte("\r\n")
 	}
@@ -204,7 +204,7 @@ func c13GenHead(r *Rand, i int) *c13In {
 			in.Fields = append(in.Fields, [2]string{"Location", "/moved/here"})
 		}
 		if r.Chance(5) { // a line longer than bufio's 4096-byte buffer
-			in.Fields = append(in.Fields, [2]string{"X-Long", strings.Repeat("v", r.Range(4090, 9000))})
+			in.Fields = append(in.Fields, [2]string{"X-Long", strings.Repeat("v", r.Range(4090, 6000))})
 		}
 		body := c13HeadBody(r)
 		in.RBody = c13Compress(body)
